@@ -2,3 +2,4 @@ import GristModel.Treeview
 import GristModel.Doc
 import GristModel.Engine
 import GristModel.DocSpec
+import GristModel.Identifiers
